@@ -133,10 +133,21 @@ def _handler_types(h: ast.ExceptHandler) -> tuple[str, ...] | None:
   return (unparse(h.type),)
 
 
+EXC_ALIASES: dict[str, tuple[str, ...]] = {}    # module-level tuples of exception classes, filled by core.Repo
+
+
 def _expand_alias(t: str) -> tuple[str, ...]:
+  if t in EXC_ALIASES:
+    return tuple(x for u in EXC_ALIASES[t] for x in (_expand_alias(u) if u != t else (u,)))
   if t == '_IGNORE_ERROR_TYPES':
     return ('ValueError', 'TypeError')
   return (t,)
+
+
+def handler_type_names(h: ast.ExceptHandler) -> list[str]:
+  """The exception types a handler names, module-level tuple aliases expanded."""
+  ts = _handler_types(h) or ()
+  return [x for t in ts for x in _expand_alias(t)]
 
 
 def match_handler(
